@@ -1,5 +1,114 @@
-import PoetryVerif.Model.Version
-import PoetryVerif.Spec.Pep440
+/-
+C03 — Version parsing, normalisation and ordering follow PEP 440.
+Property theorems only (helper lemmas live in Proofs/).  Each theorem is followed by an
+`example` showing its hypotheses are met by a concrete non-trivial object.
+-/
+import PoetryVerif.Proofs.VersionOrder
+import PoetryVerif.Proofs.VersionParse
+
+set_option linter.unusedSimpArgs false
+set_option linter.unusedVariables false
+
 namespace Poetry.C03
-theorem placeholder : True := trivial
+open Poetry Version Spec
+
+/-- Every version the parser returns is well-formed (this discharges the `wf` hypotheses below for
+everything reachable through `Version.parse`). -/
+theorem parsed_is_wellformed (s : String) (v : Version) (h : Version.parse s = .ok v) :
+    v.wf = true := parse_wf s v h
+
+/-- **Ordering equals the PEP 440 reference ordering** for every pair of well-formed versions:
+any number of release components, any epoch, any pre/post/dev numbers, any local label. -/
+theorem order_eq_reference (a b : Version) (ha : a.wf = true) (hb : b.wf = true) :
+    Version.cmp a b = cmpRef a b := cmp_eq_cmpRef a b ha hb
+
+/-- the same, stated for strings that parse -/
+theorem order_eq_reference_parsed (s t : String) (a b : Version)
+    (ha : Version.parse s = .ok a) (hb : Version.parse t = .ok b) :
+    Version.cmp a b = cmpRef a b :=
+  cmp_eq_cmpRef a b (parse_wf s a ha) (parse_wf t b hb)
+
+example : ∃ a b, Version.parse "1.0RC1+Ubuntu.01" = .ok a ∧ Version.parse "1!2.dev3" = .ok b ∧
+    a.wf = true ∧ b.wf = true ∧ Version.cmp a b = .lt := by
+  refine ⟨_, _, rfl, rfl, ?_, ?_, ?_⟩ <;> decide
+
+/-- **Strict total order** (on keys): irreflexive/reflexive-equal, antisymmetric via swap, transitive,
+and `<`, `==`, `>` are mutually exclusive and exhaustive by construction (`Ordering`). -/
+theorem order_total (a b : Version) : Version.cmp a b = (Version.cmp b a).swap := cmp_swap a b
+
+theorem order_refl (a : Version) : Version.cmp a a = .eq := cmp_refl a
+
+theorem order_trans (a b c : Version) (h1 : Version.cmp a b = .lt) (h2 : Version.cmp b c = .lt) :
+    Version.cmp a c = .lt := cmp_lt_trans h1 h2
+
+/-- equality is an equivalence compatible with the order: equal versions compare alike against
+any third version. -/
+theorem eq_congruence (a a' b : Version) (h : Version.cmp a a' = .eq) :
+    Version.cmp a b = Version.cmp a' b ∧ Version.cmp b a = Version.cmp b a' :=
+  ⟨cmp_congr_left h b, cmp_congr_right h b⟩
+
+/-- **Hash coherence**: `__hash__` hashes the compare key, `==` compares the compare key; so equal
+versions have equal hash input. -/
+theorem eq_iff_same_hash_input (a b : Version) : Version.eqv a b = true ↔ Version.key a = Version.key b := by
+  unfold Version.eqv; rw [beq_iff_eq]; exact cmp_eq_iff_key a b
+
+/-- **1.0 == 1.0.0**: padding the release with a zero never changes the version. -/
+theorem pad_zero (v : Version) :
+    Version.cmp v { v with release := v.release ++ [0] } = .eq := by
+  rw [cmp_eq_iff_key]; simp [Version.key, stripZeros_append_zero, preK, postK, devK]
+
+example : ∃ a b, Version.parse "1.0" = .ok a ∧ Version.parse "1.0.0" = .ok b ∧ Version.cmp a b = .eq :=
+  ⟨_, _, rfl, rfl, by decide⟩
+
+/-- **dev < pre < final < post** for one release, any numbers. -/
+theorem dev_lt_pre_lt_final_lt_post (e : Nat) (r : List Nat) (p : Tag) (hp : p.isPre = true) (n m k : Nat) :
+    let dev := Version.mk' e r none none (some ⟨.dev, n⟩) none
+    let pre := Version.mk' e r (some ⟨p.phase, m⟩) none none none
+    let fin := Version.mk' e r none none none none
+    let post := Version.mk' e r none (some ⟨.post, k⟩) none none
+    Version.cmp dev pre = .lt ∧ Version.cmp pre fin = .lt ∧ Version.cmp fin post = .lt := by
+  intro dev pre fin post
+  refine ⟨?_, ?_, ?_⟩ <;>
+  · simp only [Version.cmp, Version.cmpKey, Version.key, dev, pre, fin, post, Version.mk', preK, postK, devK]
+    simp [compare_pair, Ordering.then, Version.compare_self_eq, compare_negInfTag_tag,
+      compare_preTag_infTag _ (show (Tag.mk p.phase m).isPre = true by simpa [Tag.isPre] using hp),
+      compare_devTag_infTag, locK, Version.compare_negInf_inf]
+
+example : (⟨.rc, 0⟩ : Tag).isPre = true := by decide
+
+/-- **Local labels**: a version without local label sorts before the same version with one. -/
+theorem nolocal_lt_local (v : Version) (ps : List String) (hv : v.wf = true)
+    (hps : ps ≠ [] ∧ ∀ s ∈ ps, s ≠ "") :
+    Version.cmp { v with loc := none } { v with loc := some ps } = .lt := by
+  simp only [Version.cmp, Version.cmpKey, Version.key, compare_pair, preK, postK, devK]
+  simp [Version.compare_self_eq, Ordering.then, noLocal_lt_local ps hps]
+
+/-- alphabetic local segments sort before numeric ones -/
+theorem local_alpha_lt_numeric (v : Version) (s t : String) (hs : isNumericStr s = false)
+    (ht : isNumericStr t = true) :
+    Version.cmp { v with loc := some [s] } { v with loc := some [t] } = .lt := by
+  simp only [Version.cmp, Version.cmpKey, Version.key, compare_pair, preK, postK, devK]
+  simp [Version.compare_self_eq, Ordering.then, locK, locSegK, hs, ht, List.compare_cons_cons,
+    compare_pair, compare_negInfNum_fin]
+
+/-- numeric local segments compare as numbers (not as strings) -/
+theorem local_numeric_order (v : Version) (s t : String) (hs : isNumericStr s = true)
+    (ht : isNumericStr t = true) (h : digitsToNat s.toList < digitsToNat t.toList) :
+    Version.cmp { v with loc := some [s] } { v with loc := some [t] } = .lt := by
+  simp only [Version.cmp, Version.cmpKey, Version.key, compare_pair, preK, postK, devK]
+  simp [Version.compare_self_eq, Ordering.then, locK, locSegK, hs, ht, List.compare_cons_cons,
+    compare_pair, compare_numK_fin, Nat.compare_eq_lt.mpr h]
+
+example : isNumericStr "10" = true ∧ isNumericStr "9" = true ∧
+    digitsToNat "9".toList < digitsToNat "10".toList := by decide
+
+/-- a label that is a proper prefix of another sorts first -/
+theorem local_prefix_order (v : Version) (ps : List String) (x : String) :
+    Version.cmp { v with loc := some ps } { v with loc := some (ps ++ [x]) } = .lt := by
+  simp only [Version.cmp, Version.cmpKey, Version.key, compare_pair, preK, postK, devK]
+  simp only [Version.compare_self_eq, Ordering.then, locK]
+  induction ps with
+  | nil => simp [List.compare_nil_cons]
+  | cons p ps ih => simp [List.compare_cons_cons, Version.compare_self_eq, Ordering.then]; simpa using ih
+
 end Poetry.C03
